@@ -127,6 +127,15 @@ let eval (w : string array) : float list =
     (match g with
      | [a; d] -> [cv_hbond fops r0 (z_of_int en) (z_of_int ed) cell a d]
      | _ -> raise (Bad "hBond needs two distinct atoms"))
+  | "coordNumPL" ->
+    (* pair list built at the first positions, value at the second positions *)
+    let r0 = nf () in let aniso = ni () <> 0 in let r0v = v3 () in
+    let en = ni () in let ed = ni () in let tol = nf () in
+    let g1 = group () in let g2 = group () in
+    let h1 = group () in let h2 = group () in
+    let rv = if aniso then Some r0v else None in
+    let pl = pairlist_build fops r0 rv (z_of_int en) (z_of_int ed) tol cell g1 g2 in
+    [cv_coordnum_pl fops pl r0 rv (z_of_int en) (z_of_int ed) tol cell h1 h2]
   | "distancePairs" -> let g1 = group () in let g2 = group () in cv_distance_pairs fops pbc cell g1 g2
   | "rmsd" | "eigenvector" ->
     let n = ni () in
